@@ -190,7 +190,7 @@ def theorem_scope(res):
     (corpus definitions, definitions in that sub-environment, plain_envb of it)"""
     body = ("From TsRs Require Import Corr.%s Proofs.Sem_derive_proofs.\n" % res["envname"] + CR.HEADER + """
 Definition shrink (R' : env) : env :=
-  filter (fun p => plain_defb (snd p) && is_ok (decl_of is_upper is_alnum is_numeric R' fuel (snd p))) R'.
+  filter (fun p => plain_defb R' (snd p) && is_ok (decl_of is_upper is_alnum is_numeric R' fuel (snd p))) R'.
 Fixpoint dedup (seen : list str) (R' : env) : env :=
   match R' with
   | [] => []
